@@ -384,6 +384,33 @@ fn brackets(out: &mut Out, rng: &mut Rng, k: u64) {
             out.inconclusive("clock step detected");
             return;
         }
+        judge_bracket(out, &r);
+    }
+    // the very same datagram again, alone, in later rounds: each reply must state the clock of
+    // ITS batch (a response cached from the earlier identical request would be stale)
+    for (p, wait_ms) in [(Proto::Classic, 3u64), (Proto::Classic, 40), (Proto::Ietf, if k % 4 == 0 { 1050 } else { 0 })] {
+        if p == Proto::Ietf && wait_ms == 0 {
+            continue;
+        }
+        let dg = if p == Proto::Classic { valid_classic(rng).data } else { valid_ietf(rng, Some(&srv)).data };
+        for rep_no in 0..3 {
+            // no sentinel: it would put a different classic request between the two identical ones
+            let r = d.round_opts(vec![(0, dg.clone())], true, false);
+            if r.panic.is_some() {
+                return;
+            }
+            if rep_no > 0 {
+                out.obs("identical_request_repeats_bracketed", 1);
+            }
+            judge_bracket(out, &r);
+            std::thread::sleep(Duration::from_millis(wait_ms));
+        }
+    }
+    out.case(fnv64(&cfg.seed) ^ k, true);
+}
+
+fn judge_bracket(out: &mut Out, r: &Round) {
+    {
         for rep in &r.replies {
             let Some(v) = &rep.verified else { continue };
             let p = reply_proto(&rep.data);
@@ -400,7 +427,6 @@ fn brackets(out: &mut Out, rng: &mut Rng, k: u64) {
             }
         }
     }
-    out.case(fnv64(&cfg.seed) ^ k, true);
 }
 
 pub fn run_c11(ctx: &Ctx, out: &mut Out) {
@@ -447,7 +473,7 @@ pub fn run_c11(ctx: &Ctx, out: &mut Out) {
             break;
         }
     }
-    for k in 0..ctx.share(1_600, 64_000) {
+    for k in 0..ctx.share(480, 32_000) {
         brackets(out, &mut rng, k);
         if !ctx.time_left() {
             break;
@@ -458,6 +484,7 @@ pub fn run_c11(ctx: &Ctx, out: &mut Out) {
     out.floor("grid_points", 72);
     out.floor("replies_bracketed_classic", 500);
     out.floor("replies_bracketed_ietf", 500);
+    out.floor("identical_request_repeats_bracketed", 200);
 }
 
 #[allow(dead_code)]
